@@ -163,7 +163,7 @@ def fuzz_target(job):
         running = re.findall(r"Running: (\S+)", out)
         culprit = running[-1] if running else todo[0]
         res["candidates"].append(culprit)
-        if len(res["candidates"]) >= 30:
+        if len(res["candidates"]) >= job["maxcrash"]:
             res["prefix_not_run"] = len(todo)
             break
         if culprit in todo:
@@ -185,7 +185,7 @@ def fuzz_target(job):
                 break
             res["candidates"] += arts
             res["restarts"] += 1
-            if res["restarts"] > 40:
+            if res["restarts"] > job["maxcrash"]:
                 break
     try:
         for line in open(stats):
@@ -194,6 +194,12 @@ def fuzz_target(job):
                 res[k2] += s[k2]
     except OSError:
         pass
+    # signature of every candidate (one run each, in this worker)
+    res["cand_sigs"] = []
+    for c in res["candidates"][:60]:
+        sig, _ = replay(t, c, "w")
+        if sig is not None:
+            res["cand_sigs"].append((c, sig))
     # a few sample inputs (valid seed + one grown corpus entry)
     res["samples"] = []
     for f in (seeds[:1] + sorted(glob.glob(os.path.join(d, "corpus", "*")))[-1:]):
@@ -229,19 +235,22 @@ def check(pid, tier, seed):
 
     seen_sig = {}
 
-    def judge(target, path, origin):
+    def judge(target, path, origin, sig=None):
         nonlocal excluded
-        sig, _ = replay(target, path, "j")
+        if sig is None:
+            sig, _ = replay(target, path, "j")
         if sig is None:
             return
         if (target, sig) in seen_sig:
             if seen_sig[(target, sig)] == "known":
                 excluded += 1
             return
-        sig2 = confirm(target, path)
-        if sig2 is None:
-            return
-        sig = sig2
+        if match_known(kf, target, sig) is None:
+            # only a signature that no known finding covers needs the 3x confirmation
+            sig2 = confirm(target, path)
+            if sig2 is None:
+                return
+            sig = sig2
         if sig.startswith("timeout(driver)"):
             return
         f = match_known(kf, target, sig)
@@ -264,22 +273,28 @@ def check(pid, tier, seed):
             sig, _ = replay(t, f, "r")
             if sig is not None:
                 judge(t, f, "corpus")
-    for f in kf:
+    def kf_replay(f):
+        return f, replay(f["target"], os.path.join(VERIF, f["replay"]), "k")[0]
+    with ThreadPoolExecutor(max_workers=os.cpu_count() or 8) as ex:
+        kres = list(ex.map(kf_replay, kf))
+    for f, sig in kres:
         path = os.path.join(VERIF, f["replay"])
         replayed += 1
-        sig = confirm(f["target"], path)
         if sig is not None and match_known([f], f["target"], sig):
             if f not in known_hits:
                 known_hits.append(f)
         elif sig is not None:
-            violations.append((path, f["target"], sig))
+            sig = confirm(f["target"], path)
+            if sig is not None and not match_known(kf, f["target"], sig):
+                violations.append((path, f["target"], sig))
         else:
             log("[C09] note: stored finding %s no longer fails" % f["id"])
 
     # ---- prefix + fuzz tiers
     budget = 20 if tier == "quick" else 360
     stride = 5 if tier == "quick" else 1
-    jobs = [dict(target=t, budget=budget, stride=stride, seed=(seed * 1000 + i) % 2000000000 + 1) for i, t in enumerate(TARGETS)]
+    maxcrash = 10 if tier == "quick" else 40
+    jobs = [dict(target=t, budget=budget, stride=stride, maxcrash=maxcrash, seed=(seed * 1000 + i) % 2000000000 + 1) for i, t in enumerate(TARGETS)]
     with ThreadPoolExecutor(max_workers=os.cpu_count() or 8) as ex:
         results = list(ex.map(fuzz_target, jobs))
     tot = dict(execs=0, loaded=0, deep=0, roundtrips=0, prefix_inputs=0, prefix_not_run=0)
@@ -291,9 +306,8 @@ def check(pid, tier, seed):
         per_target[r["target"]] = {k: r[k] for k in ("execs", "loaded", "deep", "roundtrips", "prefix_inputs", "prefix_not_run", "seeds", "restarts")}
         per_target[r["target"]]["crash_candidates"] = len(r["candidates"])
         samples += r["samples"][:1]
-        seen = set()
-        for c in r["candidates"]:
-            judge(r["target"], c, "fuzz")
+        for c, sig in r["cand_sigs"]:
+            judge(r["target"], c, "fuzz", sig)
     for f in known_hits:
         log("KNOWN-FINDING: property=C09 %s [%s]" % (f["what"], f["id"]))
     wall = time.time() - t0
